@@ -12,7 +12,9 @@ OPEN_MODES = [("ihello", "ihello<esc>"), ("Aend", "Aend<esc>"), ("oline", "oline
 COMPLETE_EXTRA = ["dvw", "dVj", '"ayw', '"Ayw', '"ap', "fa;", "tb,", "fa2;", "x.", "dw.", "/o<CR>n", "/a<CR>N", "?o<CR>n", "3x", "2dw", "yyp", "ddP", "xu",
                   "ixy<esc>.", ":s/a/b/<CR>", "vey", "viwd", "guiw", "~", "J", "rZ",
                   # cancelled or rejected commands: what they had collected (count, register, operator, v/V modifier) must be gone
-                  "dv<esc>", "dV<esc>", "d<esc>", "c<esc>", '"a<esc>', "3<esc>", "2d<esc>", "g<esc>", "dvb", "dvq", "yV<esc>", "dv<esc>", "f<esc>", "dt<esc>", "di<esc>"]
+                  "dv<esc>", "dV<esc>", "d<esc>", "c<esc>", '"a<esc>', "3<esc>", "2d<esc>", "g<esc>", "dvb", "dvq", "yV<esc>", "dv<esc>", "f<esc>", "dt<esc>", "di<esc>",
+                  # a register name the parser rejects: the prefix is dropped on the spot, the next command is not swallowed
+                  '"1', '"_', '"+', '"0', '"1x', '"_dw']
 
 
 def complete_cmd(rng):
